@@ -136,6 +136,7 @@ func main() {
 		}
 		mu.Unlock()
 	})
+	run.Set("wall_s_part_a", float64(int(run.Elapsed().Seconds()*10))/10)
 	run.Set("unit_cases", len(space))
 	run.Set("unit_rtp_roundtrips", rtpN)
 	run.Set("unit_rtcp_roundtrips", rtcpN)
@@ -149,7 +150,9 @@ func main() {
 	for i := range jobs {
 		anyJobs[i] = jobs[i]
 	}
+	tB := time.Now()
 	results := evid.RunJobs(anyJobs, 16, 4*time.Minute)
+	run.Set("wall_s_parts_b_c", float64(int(time.Since(tB).Seconds()*10))/10)
 	counts := map[string]int{}
 	confirm := map[int][]Vio{}
 	for i, r := range results {
